@@ -91,6 +91,20 @@ Proof.
   cbn [snd] in T. apply N.ltb_lt. exact T.
 Qed.
 
+(* the back quote is not in the table either *)
+Lemma up_tab_no96 : forallb (fun kv : N * N => negb (fst kv =? 96) && negb (snd kv =? 96)) upper_ascii_tab = true.
+Proof. vm_compute. reflexivity. Qed.
+Lemma up_keynobt : forall x u, upper x = Some u -> x <> 96.
+Proof.
+  intros x u H. apply assoc_in in H. pose proof up_tab_no96 as T. rewrite forallb_forall in T. specialize (T _ H).
+  cbn [fst snd] in T. apply andb_prop in T. destruct T as [T _]. apply N.eqb_neq. apply negb_true_iff. exact T.
+Qed.
+Lemma up_nobt : forall x u, upper x = Some u -> u <> 96.
+Proof.
+  intros x u H. apply assoc_in in H. pose proof up_tab_no96 as T. rewrite forallb_forall in T. specialize (T _ H).
+  cbn [fst snd] in T. apply andb_prop in T. destruct T as [_ T]. apply N.eqb_neq. apply negb_true_iff. exact T.
+Qed.
+
 (* the minus sign is neither a letter nor a digit nor a rune with an upper-case ASCII image: a line comment start
    never lies inside a word *)
 Lemma nl45 : letter 45 = false. Proof. vm_compute. reflexivity. Qed.
